@@ -382,6 +382,24 @@ func loadKnown() KnownFile {
 	return k
 }
 
+// Unlisted: the number of findings that are not listed in known_findings.json.
+func (r *Report) Unlisted() int {
+	known := loadKnown()
+	n := 0
+	for _, f := range r.Findings {
+		listed := false
+		for _, k := range known.Findings {
+			if k.Property == r.Prop && k.Key == f.Key {
+				listed = true
+			}
+		}
+		if !listed {
+			n++
+		}
+	}
+	return n
+}
+
 // ---------------------------------------------------------------------------------------------
 // Emit: evidence + verdict lines. Returns exit status.
 
